@@ -5,7 +5,11 @@ catch_unwind over random valid worlds (witgen, every feature class switched on i
 turn), the hand-written boundary shapes and the tests/codegen corpus.  A panic is
 a violation unless the backend's declared exclusions (should_fail_verify) cover
 the input: literally for corpus files, translated conservatively into feature
-tags for random worlds.  Subprocess cross-check: a sample of the same cases
+tags for random worlds (a backend that excludes named-fixed-length-list.wit is
+taken to declare fixed-length lists unsupported altogether).  A fixed set of
+directed worlds (genrun::directed_worlds, one minimal WIT per known panic) runs
+at every seed with every variant, so the re-observed findings do not depend on
+the seed.  Subprocess cross-check: a sample of the same cases
 (every in-process panic + seed-chosen Ok/Err cases) goes through the real CLI;
 exit 101 / abort must coincide with the in-process panic."""
 import concurrent.futures
@@ -22,7 +26,7 @@ META = {
     "technique": "in-process execution of all 8 generators under a panic monitor over random valid worlds + corpus; CLI exit-status cross-check",
     "text": "Every backend x option variant is executed on seeded random valid worlds (each WIT feature class switched on in turn), "
             "boundary shapes and the 106 corpus inputs; a captured panic outside the declared exclusions is a violation with a "
-            "signature naming backend, enclosing function, normalised message and the panicking source line. Exploration, not proof: "
+            "signature `<backend>:panic:<enclosing fn>:<normalised message>` (the panicking source line is quoted in `what`). Exploration, not proof: "
             "held means no undeclared panic on the K executions listed in the evidence.",
     "note": "Valid world = wit-parser accepts and wit-component encodes+validates (witgen::generate_valid). Exclusions are read from "
             "crates/test/src/<lang>.rs by hand into genrun::declared_should_fail; if those files change the table must follow. "
